@@ -12,21 +12,27 @@ package protocol
 // sizes that decoders and their callers rely on
 
 //@ func (*VLAN).Len(v) (n) [C08 C06 C13]
+//@   requires true
 //@   ensures n == 4
 
 //@ func (*Option).Len(o) (n) [C08 C06 C13]
+//@   requires true
 //@   ensures n == uint16(o.Length) + 2
 
 //@ func (*HopByHopHeader).Len(h) (n) [C08 C06 C13]
+//@   requires true
 //@   ensures n == 8*(uint16(h.HEL) + 1)
 
 //@ func (*RoutingHeader).Len(h) (n) [C08 C06 C13]
+//@   requires true
 //@   ensures n == 8*(uint16(h.HEL) + 1)
 
 //@ func (*FragmentHeader).Len(h) (n) [C08 C06 C13]
+//@   requires true
 //@   ensures n == 8
 
 //@ func (*IGMPv3GroupRecord).Len(p) (n) [C08 C13]
+//@   requires true
 //@   ensures n == 8 + uint16(p.AuxDataLen)*4 + p.NumberOfSources*4
 
 // ---------------------------------------------------------------------------------------------
@@ -125,3 +131,110 @@ package protocol
 //@   modifies *d
 //@   own noalias
 //@   ensures 0 <= n && n <= len(b)
+
+// ---------------------------------------------------------------------------------------------
+// Encoder side (C06 C09 C13): size/wf specs; Len/MarshalBinary inherit the util.Message contract.
+// wf = "every field within its bit width, length and count fields consistent with the parts present".
+
+//@ spec size(v *VLAN) = 4
+//@ spec wf(v *VLAN) = v.PCP < 8 && v.DEI < 2 && v.VID < 4096
+
+//@ spec size(e *Ethernet) = 14 + ite(e.VLANID.VID != 0, 4, 0) + ite(e.Data != nil, size(e.Data), 0)
+//@ spec wf(e *Ethernet) = len(e.HWDst) == 6 && len(e.HWSrc) == 6 && wf(e.VLANID) && (e.Data != nil ==> wf(e.Data))
+
+//@ func (*Ethernet).MarshalBinary(e) (data, err)
+//@   flag notrunc
+
+//@ spec size(a *ARP) = 8 + 2*int(a.HWLength) + 2*int(a.ProtoLength)
+//@ spec wf(a *ARP) = len(a.HWSrc) == int(a.HWLength) && len(a.HWDst) == int(a.HWLength) && len(a.IPSrc) == int(a.ProtoLength) && len(a.IPDst) == int(a.ProtoLength)
+
+//@ spec size(i *ICMP) = 4 + len(i.Data)
+//@ spec wf(i *ICMP) = true
+
+//@ spec size(u *UDP) = 8 + len(u.Data)
+//@ spec wf(u *UDP) = true
+
+//@ spec size(t *TCP) = 20 + len(t.Data)
+//@ spec wf(t *TCP) = t.HdrLen < 16 && t.Code < 64
+
+//@ spec ihl(i *IPv4) = ite(i.IHL < 5, 5, int(i.IHL))
+//@ spec size(i *IPv4) = 4*ihl(i) + ite(i.Data != nil, size(i.Data), 0)
+//@ spec wf(i *IPv4) = i.Version < 16 && i.IHL < 16 && i.DSCP < 64 && i.ECN < 4 && i.Flags < 8 && i.FragmentOffset < 8192 && blen(i.Options) == 4*ihl(i) - 20 && (i.Data != nil ==> wf(i.Data))
+
+//@ func (*IPv4).Len(i) (n)
+//@   modifies i.IHL
+//@   ensures[C13] int(i.IHL) == old(ihl(i))
+
+//@ func (*IPv4).MarshalBinary(i) (data, err)
+//@   flag notrunc
+//@   modifies i.IHL
+//@   ensures[C13] int(i.IHL) == old(ihl(i))
+
+//@ spec size(o *Option) = 2 + int(o.Length)
+//@ spec wf(o *Option) = len(o.Data) == int(o.Length)
+
+//@ spec size(h *HopByHopHeader) = 8*(int(h.HEL) + 1)
+//@ spec wf(h *HopByHopHeader) = allwf(h.Options) && 2 + sum(h.Options) == 8*(int(h.HEL) + 1)
+
+//@ func (*HopByHopHeader).MarshalBinary(h) (data, err)
+//@   flag notrunc
+//@   loop 1:
+//@     invariant n == 2 + sum(h.Options, #k)
+
+//@ spec size(h *RoutingHeader) = 8*(int(h.HEL) + 1)
+//@ spec wf(h *RoutingHeader) = h.Data != nil && blen(h.Data) == 8*(int(h.HEL) + 1) - 4
+
+//@ func (*RoutingHeader).MarshalBinary(h) (data, err)
+//@   flag notrunc
+
+//@ spec size(h *FragmentHeader) = 8
+//@ spec wf(h *FragmentHeader) = h.FragmentOffset < 8192
+
+//@ spec size(p *IGMPv1or2) = 8
+//@ spec wf(p *IGMPv1or2) = true
+
+//@ spec size(p *IGMPv3Query) = 12 + 4*int(p.NumberOfSources)
+//@ spec wf(p *IGMPv3Query) = int(p.NumberOfSources) == len(p.SourceAddresses) && p.RobustnessValue < 8
+
+//@ func (*IGMPv3Query).MarshalBinary(p) (data, err)
+//@   loop 1:
+//@     invariant n == 12 + 4*#k
+
+//@ spec size(p *IGMPv3GroupRecord) = 8 + 4*int(p.AuxDataLen) + 4*int(p.NumberOfSources)
+//@ spec wf(p *IGMPv3GroupRecord) = int(p.NumberOfSources) == len(p.SourceAddresses) && int(p.AuxDataLen) == len(p.AuxData)
+
+//@ func (*IGMPv3GroupRecord).MarshalBinary(p) (data, err)
+//@   loop 1:
+//@     invariant n == 8 + 4*#k
+//@   loop 2:
+//@     invariant n == 8 + 4*len(p.SourceAddresses) + 4*#k
+
+//@ spec size(p *IGMPv3MembershipReport) = 8 + sum(p.GroupRecords)
+//@ spec wf(p *IGMPv3MembershipReport) = allwf(p.GroupRecords) && int(p.NumberOfGroups) == len(p.GroupRecords)
+
+//@ func (*IGMPv3MembershipReport).Len(p) (n)
+//@   loop 1:
+//@     invariant length == uint16(8 + sum(p.GroupRecords, #k))
+
+//@ func (*IGMPv3MembershipReport).MarshalBinary(p) (data, err)
+//@   flag notrunc
+//@   loop 1:
+//@     invariant n == 8 + sum(p.GroupRecords, #k)
+
+// IPv6: extension headers in the canonical order hop-by-hop, routing, fragment; each is present exactly when the
+// next-header chain names it (the encoder follows the chain, the size function counts the non-nil headers).
+//@ spec nh1(i *IPv6) = ite(i.HbhHeader != nil, i.HbhHeader.NextHeader, i.NextHeader)
+//@ spec nh2(i *IPv6) = ite(i.RoutingHeader != nil, i.RoutingHeader.NextHeader, nh1(i))
+//@ spec nh3(i *IPv6) = ite(i.FragmentHeader != nil, i.FragmentHeader.NextHeader, nh2(i))
+//@ spec size(i *IPv6) = 40 + ite(i.HbhHeader != nil, size(i.HbhHeader), 0) + ite(i.RoutingHeader != nil, size(i.RoutingHeader), 0) + ite(i.FragmentHeader != nil, size(i.FragmentHeader), 0) + size(i.Data)
+//@ spec wf(i *IPv6) = i.Version < 16 && i.FlowLabel < 1048576 && len(i.NWSrc) == 16 && len(i.NWDst) == 16 && wf(i.Data) && (i.HbhHeader != nil ==> wf(i.HbhHeader)) && (i.RoutingHeader != nil ==> wf(i.RoutingHeader)) && (i.FragmentHeader != nil ==> wf(i.FragmentHeader)) && ((i.HbhHeader != nil) == (i.NextHeader == 0)) && nh1(i) != 0 && ((i.RoutingHeader != nil) == (nh1(i) == 43)) && nh2(i) != 0 && nh2(i) != 43 && ((i.FragmentHeader != nil) == (nh2(i) == 44)) && nh3(i) != 0 && nh3(i) != 43 && nh3(i) != 44
+
+//@ spec hlen(i *IPv6) = ite(i.HbhHeader != nil, size(i.HbhHeader), 0)
+//@ spec rlen(i *IPv6) = ite(i.RoutingHeader != nil, size(i.RoutingHeader), 0)
+//@ spec flen(i *IPv6) = ite(i.FragmentHeader != nil, size(i.FragmentHeader), 0)
+
+//@ func (*IPv6).MarshalBinary(i) (data, err)
+//@   flag notrunc
+//@   loop 1:
+//@     invariant (nxtHeader == i.NextHeader && n == 40) || (i.HbhHeader != nil && nxtHeader == nh1(i) && n == 40 + hlen(i)) || (i.RoutingHeader != nil && nxtHeader == nh2(i) && n == 40 + hlen(i) + rlen(i)) || (i.FragmentHeader != nil && nxtHeader == nh3(i) && n == 40 + hlen(i) + rlen(i) + flen(i))
+//@     decreases 2*ite(nxtHeader == 0, 3, ite(nxtHeader == 43, 2, ite(nxtHeader == 44, 1, 0))) + ite(checkExtHeader, 1, 0)
